@@ -57,9 +57,12 @@ def units(tier):
             start, days, now_minute = setup(ip, ctx, cw, combo)
             ob = outcome_of(lambda: ip.call_function(func(Q), [start, days], {}, ctx))
             ctx._code_outcome = ob
-            os_ = outcome_of(lambda: ip.call_function(func("spec.next_run_spec"), [start, days, cw, now_minute], {}, ctx))
+            # the specification is evaluated on its own copy of the day set; the caller's set must come back unchanged
+            os_ = outcome_of(lambda: ip.call_function(func("spec.next_run_spec"), [start, PySet(combo), cw, now_minute], {}, ctx))
             tag = "".join(str(list(Days()).index(x)) for x in combo) or "none"
-            return equiv_obligations(ip, ctx, f"{PROP}/weekday{cw}/days_{tag}", ob, os_)
+            return equiv_obligations(ip, ctx, f"{PROP}/weekday{cw}/days_{tag}", ob, os_) + [
+                Obligation(f"{PROP}/weekday{cw}/days_{tag}/the_callers_day_set_is_unchanged", ctx, isinstance(days, PySet) and set(days.s) == set(combo),
+                           note=f"{sorted(getattr(d, 'name', str(d)) for d in days.s)}")]
 
         def wit(ctx, model):
             return {"case": {"prop": PROP, "kind": "one", "inputs": {k: concretise(v, model) for k, v in ctx.inputs.items()}},
